@@ -83,8 +83,9 @@ def main():
     result["detected_by"] = [p for p, v in checks.items() if v["exit"] != 0]
     dst = os.path.join(VERIF, "seeded", sid)
     os.makedirs(dst, exist_ok=True)
-    shutil.copy(patch, os.path.join(dst, "patch.diff"))
-    shutil.copy(demo, os.path.join(dst, "demo_test.go"))
+    for src_f, name in ((patch, "patch.diff"), (demo, "demo_test.go")):
+        if os.path.abspath(src_f) != os.path.abspath(os.path.join(dst, name)):
+            shutil.copy(src_f, os.path.join(dst, name))
     result["what_i_ran"] = "bin/try-seeded.py: scratch worktree of /repo HEAD: demo on pristine tree, git apply, go build ./cmd/keymasterd, bin/baseline.sh (143 stable tests), demo with change; then git -C /repo apply, bin/check <prop> --tier quick for each named property, git -C /repo checkout -- ."
     json.dump(result, open(os.path.join(dst, "meta.json"), "w"), indent=1)
     print(json.dumps({k: result.get(k) for k in ("confirmed", "demo_pristine", "demo_with_change", "baseline_with_change", "detected_by")}, indent=0))
